@@ -14,7 +14,7 @@ LEVEL_TEXT = ('seeded exploration of frames (8 dtypes x byte order x layout x wi
               'source kind x record length x a second write with other data; bit-exact decode vs model rows')
 LEVEL_NOTE = ('trusted: sim/rp66.py, numpy astype for the declared cast and byte order of the expectation; '
               'bounds: <= 64 rows, width <= 48, <= 2 writes')
-TIERS = {'quick': {'cases': 1800, 'wall': 40}, 'thorough': {'cases': 300000, 'wall': 780}}
+TIERS = {'quick': {'cases': 5000, 'wall': 40}, 'thorough': {'cases': 300000, 'wall': 780}}
 RULE = ('case = seeded frames with data supplied inline/dict/structured/HDF5, written with a seeded input chunk size (and a '
         'second write with other data in a fraction); non-trivial = input chunk size smaller than the row count (several chunks '
         'were read) or a second write; distinct = case digest')
